@@ -120,6 +120,15 @@ fn main() {
         }
     }
     c.add_sweep("enumerate_bus: all 64 populations of 6 representative (device,function) slots", 64, 64, true, J::obj());
+    // Every raw header-type byte (layout x multi-function bit) on function 0 and on a later function.
+    for v in 0..=255u8 {
+        for pop in [0b000001u8, 0b000011, 0b100101] {
+            for (k, d) in c12::enumerate_case_with(pop, [v, v ^ 0x80, v.wrapping_add(1), v, v ^ 0x80, v]) {
+                c.add_violation(Violation::new("C12", k, format!("header type byte {:#04x}: {}", v, d)), "enumerate_bus", J::obj().set("kind", J::s("case")).set("case", J::s(d)), vec![]);
+            }
+        }
+    }
+    c.add_sweep("enumerate_bus: all 256 raw header-type bytes on three populations", 768, 768, true, J::obj());
     // (5) capability walking
     let alpha = cap_alphabet();
     let mut lists: Vec<Vec<CapSpec>> = vec![vec![]];
